@@ -734,6 +734,11 @@ class ParseEval:
             self.consumed_const = getattr(self, "consumed_const", 0) + ss.a.cval()
             self.fill_gap(base, ss.a.cval(), node)
         if ss.b is None:
+            if not ss.a.is_const():
+                lo_ = self.env.interval(ss.a)[0]
+                self.obl("negative-index", lo_ >= 0, f"span = span[{ss.a.key()}:] where the bound may be negative ({lo_}): a "
+                         f"negative bound counts from the end of the span, the parser goes on with the wrong bytes", node,
+                         role="advance")
             ok = self.env.prove_ge(base.rem, ss.a)
             self.obl("short-read", ok, f"span = span[{ss.a.key()}:] with known length {base.rem.key()} (silently truncates)", node,
                      role="advance")
@@ -900,8 +905,9 @@ class ParseEval:
     # ------------------------------------------------------------------ layout bookkeeping (mirrors rslayout.DecoderLayout)
     def role(self, e, r):
         # a size used after `size = size - modifier`: the role belongs to the field value, with that modifier
-        if r[0] in ("size",) and e.op == "sub" and e.args[1].is_const() and r[2] == 0:
-            self.roles[e.args[0].key()] = (r[0], r[1], e.args[1].cval())
+        if r[0] in ("size", "count|size1") and e.op == "sub" and e.args[1].is_const() and r[2] == 0:
+            # (a count has no modifier: `n - K` bounding a loop over one-octet elements is a size)
+            self.roles[e.args[0].key()] = ("size", r[1], e.args[1].cval())
         self.roles[e.key()] = r
 
     def use(self, name, e, field=False, kind="var", **kw):
